@@ -1,5 +1,5 @@
 """Property registry: Coq target, K function, evidence text."""
-from . import props_ledger as PL, props_ledger2 as PL2, props_dsl as PD, props_fmt as PF, props_schwab as PS, props_fx as PX
+from . import props_ledger as PL, props_ledger2 as PL2, props_dsl as PD, props_fmt as PF, props_schwab as PS, props_fx as PX, props_mcp as PM
 
 def spec(pid, k, rule, need_cli=False, not_proved="", trusted_extra=None, assumptions=None):
     return {"pid": pid, "target": "Props/P_%s.vo" % pid, "vfile": "Props/P_%s.v" % pid, "module": "Props.P_%s" % pid,
@@ -30,5 +30,6 @@ PROPS = {
     "C17": dict(spec("C17", PF.k_c17, "ledgers built for display edge cases (sale prices x.xx5 giving exact half-pence results, fees 0.005/0.015, amounts of a million and more, losses, zero results, quantities with 6+ decimals, foreign-currency echoes) plus scenario ledgers and the repository fixtures; every shown figure of the plain text, the JSON and (for a subset) the PDF text runs is compared with the full-precision value; distinct non-trivial = distinct ledgers with at least one disposal"), need_pdf=True),
     "C18": spec("C18", PS.k_c18, "generated Schwab exports: Buy/Sell/Cancel Sell (before and after their sells, duplicates, non-matching), four dividend kinds with same-day and next-day NRA withholdings, Stock Split, eight non-CGT actions, unknown actions, RSU rows with awards; amounts as $1,234.56 / -$x / blank / -- / missing; plain and 'as of' dates; descriptions with quotes, #, tabs, CR/LF; occasional corrupted fields; rows shuffled; plus a row permutation and a date-disjoint two-chunk split of accepted exports"),
     "C19": spec("C19", PS.k_c19, "awards files with 0-4 vest entries per symbol at offsets -9..+2 days around the deposit date, vest-specific and fallback price fields, duplicates, non-vesting cash actions with empty details, other symbols, mixed-case symbols, month/year/leap ends; plus subsets of the offset set {-9..+2} (every fourth subset in the quick tier, all 4096 in the thorough tier)"),
+    "C20": spec("C20", PM.k_c20, "MCP sessions over stdio against the built binary: 5-25 (thorough: 5-40) requests per session mixing the five tools (valid, failing and malformed arguments, DSL and JSON ledgers, years inside and outside the table), tools/list, resources/list, resources/read, ping, unknown tools; alternately sequential and pipelined, integer and string ids; every distinct request's answers are compared across all positions and sessions; calculate_report is compared with `report --format json` and every listed disposal is explained in a fresh session; five transport probes (undecodable lines, unknown method, overflow) for the known findings", need_cli=True),
     "C14": spec("C14", PD.k_c14, "API-level transaction lists of all seven kinds: decimals of scale 0..28 up to 2^96-1, every ISO-4217 code, zero and non-zero optional clauses; every tenth case also compares the reports of the original, its DSL and its JSON rendering; distinct non-trivial = distinct lists"),
 }
